@@ -213,16 +213,27 @@ func H_C01_countersign_attached() {
 	c07Start(1)
 	kp := mkC01Pair("k", 0)
 	ext := c07External()
+	inSigner := vChoose("where", 2) == 1 // on a COSE_Sign1, or on a signer inside a COSE_Sign (one level deeper)
 	msg := &Sign1Message{
 		Headers:   Headers{Protected: ProtectedHeader{HeaderLabelAlgorithm: AlgorithmES256}, Unprotected: UnprotectedHeader{}},
 		Payload:   vBlob("payload"),
 		Signature: vBlobN("psig", 1, 64),
 	}
+	signer := &Signature{Headers: Headers{Protected: ProtectedHeader{HeaderLabelAlgorithm: AlgorithmES256}, Unprotected: UnprotectedHeader{}}, Signature: vBlobN("ssig", 1, 64)}
+	smsg := &SignMessage{Headers: Headers{Protected: ProtectedHeader{}, Unprotected: UnprotectedHeader{}}, Payload: vBlob("spayload"), Signatures: []*Signature{signer}}
+	var parent any = msg
+	target := msg.Headers.Unprotected
+	if inSigner {
+		parent, target = signer, signer.Headers.Unprotected
+	}
 	n := 1 + vChoose("n", 4)
 	var list []*Countersignature
 	for i := 0; i < n; i++ {
 		cs := &Countersignature{Headers: Headers{Protected: ProtectedHeader{}, Unprotected: UnprotectedHeader{}}}
-		if err := cs.Sign(vRand(), kp.signer, msg, ext); err != nil {
+		if c07Pick("csnested", 2, 0) == 1 { // a nested value in the countersignature's own unprotected bucket
+			cs.Headers.Unprotected[int64(1000)] = map[any]any{int64(1): []any{vInt64("deep")}}
+		}
+		if err := cs.Sign(vRand(), kp.signer, parent, ext); err != nil {
 			vReach("sign failed")
 			return
 		}
@@ -231,32 +242,51 @@ func H_C01_countersign_attached() {
 	label := []int64{HeaderLabelCounterSignatureV2, HeaderLabelCounterSignature}[vChoose("label", 2)]
 	single := n == 1 && vChoose("single", 2) == 1
 	if single {
-		msg.Headers.Unprotected[label] = list[0]
+		target[label] = list[0]
 	} else {
-		msg.Headers.Unprotected[label] = list
+		target[label] = list
 	}
-	wire, err := msg.MarshalCBOR()
-	vAssert("attached: the countersigned message serialises", err == nil)
-	if err != nil {
-		return
+	var got any
+	var backParent any
+	if inSigner {
+		wire, err := smsg.MarshalCBOR()
+		vAssert("attached: the countersigned message serialises", err == nil)
+		if err != nil {
+			return
+		}
+		var back SignMessage
+		derr := back.UnmarshalCBOR(wire)
+		vLogErr("decode", derr)
+		vAssert("attached: the library decodes the countersigned message it produced", derr == nil)
+		if derr != nil {
+			return
+		}
+		got, backParent = back.Signatures[0].Headers.Unprotected[label], back.Signatures[0]
+	} else {
+		wire, err := msg.MarshalCBOR()
+		vAssert("attached: the countersigned message serialises", err == nil)
+		if err != nil {
+			return
+		}
+		var back Sign1Message
+		derr := back.UnmarshalCBOR(wire)
+		vLogErr("decode", derr)
+		vAssert("attached: the library decodes the countersigned message it produced", derr == nil)
+		if derr != nil {
+			return
+		}
+		got, backParent = back.Headers.Unprotected[label], &back
 	}
-	var back Sign1Message
-	derr := back.UnmarshalCBOR(wire)
-	vLogErr("decode", derr)
-	vAssert("attached: the library decodes the countersigned message it produced", derr == nil)
-	if derr != nil {
-		return
-	}
-	var got []*Countersignature
-	switch v := back.Headers.Unprotected[label].(type) {
+	var gl []*Countersignature
+	switch v := got.(type) {
 	case *Countersignature:
-		got = []*Countersignature{v}
+		gl = []*Countersignature{v}
 	case []*Countersignature:
-		got = v
+		gl = v
 	}
-	vAssert("attached: every countersignature comes back", len(got) == n)
-	for _, cs := range got {
-		vAssert("attached: countersignature verifies against the decoded parent", cs.Verify(kp.verifier, &back, ext) == nil)
+	vAssert("attached: every countersignature comes back", len(gl) == n)
+	for _, cs := range gl {
+		vAssert("attached: countersignature verifies against the decoded parent", cs.Verify(kp.verifier, backParent, ext) == nil)
 	}
 	vReach("end")
 }
